@@ -55,17 +55,6 @@ def recipe(c: Check):
     # OBSERVATION (runtime residue): real MakeHole for both roles over loopback UDP, instructions from the real Controller
     st3 = c.run_driver("rendezvous", 1, coq=False, timeout=q(c.tier, 120, 600))
     if st3 is not None:
-        # F-C20c (MakeHole drops a queued first result; timing dependent, reported to the lead with a one-line patch):
-        # a failure under the key a KNOWN_FINDINGS.txt line would carry, a note in the evidence otherwise
-        listed = {k["key"] for k in c.known_findings() if k["property"] == PID}
-        for f in st3.get("finding_candidates") or []:
-            if f["key"] in listed:
-                c.failures.append(dict(f, driver="rendezvous"))
-            else:
-                c.notes.append("finding candidate F-C20c reproduced: %s [%s]" % (f["what"], f["case"]))
-        if st3.get("one_sided_attempts"):
-            c.notes.append("rendezvous: %d attempt(s) in which one peer succeeded and the other timed out (re-run succeeded or counted above): %s"
-                           % (st3["one_sided_attempts"], "; ".join((st3.get("failed_attempts") or [])[:3])))
         d = st3.get("distribution", {})
         for m in range(5):
             if d.get("mode%d_found_each_other" % m, 0) + d.get("mode%d_FAILED" % m, 0) <= 0:
